@@ -99,7 +99,9 @@ static mjModel* make_model(unsigned long long seed, unsigned feat, int nb, int i
   mjModel* m = mjg_model(seed, feat, nb, NULL);
   if (!m) return NULL;
   if (integ >= 0) m->opt.integrator = integ;
-  m->opt.enableflags |= enable;
+  m->opt.enableflags |= (enable & 0xFF);
+  if ((enable >> 8) & 3) m->opt.solver = ((enable >> 8) & 3) - 1;      // bits 8-9: solver + 1
+  if ((enable >> 10) & 3) m->opt.cone = ((enable >> 10) & 3) - 1;      // bits 10-11: cone + 1
   return m;
 }
 static void base_state(const mjModel* m, mjData* d, unsigned long long seed) {
@@ -277,6 +279,7 @@ int main(void) {
     fflush(stdout);
     pid_t pid = fork();
     if (pid == 0) {
+      alarm(60);   // a stage fed garbage may loop: the parent then reports CRASH
       FILE* t = tmpfile(); fputs(tail, t); rewind(t);
       IN = t;
       if (MJG_TRY) {
